@@ -110,11 +110,29 @@ func runC25(rc *RC) {
 	fs["verif-f"] = func(c *api.Context, v int) (int, error) {
 		return c25F(v, fail, slowPct)
 	}
+	// half of the runs map a lambda with nested calls (deeper VM stacks in
+	// the forked per-worker VMs), the others the bare function symbol
+	useLambda := rc.Pct(50)
+	rc.Knob("lambda", map[bool]int{false: 0, true: 1}[useLambda])
+	fs["verif-id"] = func(c *api.Context, v int) (int, error) {
+		if slowPct > 0 && (v*53)%100 < slowPct {
+			simrt.Yield("verif-id.slow")
+		}
+		return v, nil
+	}
 	eval := func(fn string, cores int) (items []c25Item, err error, evalErr error) {
 		e := b6.NewCallExpression(b6.NewSymbolExpression(fn), []b6.Expression{
 			b6.NewCallExpression(b6.NewSymbolExpression("verif-source"), []b6.Expression{}),
 			b6.NewSymbolExpression("verif-f"),
 		})
+		if useLambda {
+			var perr error
+			e, perr = api.ParseExpression("verif-source | " + fn + " {v -> verif-f (verif-id (verif-id v))}")
+			if perr != nil {
+				return nil, nil, fmt.Errorf("parse: %v", perr)
+			}
+			e = api.Simplify(e, fs)
+		}
 		ctx := &api.Context{World: b6.EmptyWorld{}, FunctionSymbols: fs, Adaptors: functions.Adaptors(), Context: context.Background()}
 		ctx.FillFromOptions(&api.Options{Cores: cores})
 		v, eerr := api.Evaluate(e, ctx)
